@@ -201,6 +201,7 @@ class Check:
         events_by_shard, n_traces, n_events = self._split(trace_path, shards)
         if n_events == 0:
             return []
+        self._action_histogram(subdir, module, events_by_shard)
         results = []
 
         def one(k):
@@ -240,6 +241,31 @@ class Check:
         self.cov.setdefault("trace_events_validated", 0)
         self.cov["trace_events_validated"] += n_events
         return results
+
+    def _action_histogram(self, subdir, module, events_by_shard):
+        """Vacuity report: how often each event kind (= action of the property spec) occurred in the validated traces, and which
+        event kinds the trace specification names that no trace of this run contained."""
+        import collections
+        import re
+        hist = collections.Counter()
+        rx = re.compile(r'"ev":"([A-Za-z0-9_.]+)"')
+        for lines in events_by_shard:
+            for x in lines:
+                m = rx.search(x)
+                if m:
+                    hist[m.group(1)] += 1
+        named = set()
+        try:
+            txt = open(os.path.join(SPEC, subdir, module + ".tla")).read()
+            named |= set(re.findall(r'\.ev = "([A-Za-z0-9_.]+)"', txt))
+            for grp in re.findall(r'\.ev \\in \{([^}]*)\}', txt):
+                named |= set(re.findall(r'"([A-Za-z0-9_.]+)"', grp))
+        except OSError:
+            pass
+        a = self.cov.setdefault("actions_observed", {}).setdefault(module, {})
+        for k, v in hist.items():
+            a[k] = a.get(k, 0) + v
+        self.cov.setdefault("actions_named_but_never_observed", {})[module] = sorted(named - set(a))
 
     @staticmethod
     def _trace_of(lines, idx, tid):
